@@ -53,6 +53,9 @@ type bcCase struct {
 	RtMs    int  `json:"rtms"`
 	WtMs    int  `json:"wtms"`
 	BoundMs int  `json:"boundms"`
+	// Mix (header v0 cases): the calls rotate through several APIs that expect a response - GetMetadata,
+	// Produce with RequiredAcks 1, -1, 2, 3, Fetch, CommitOffset - instead of GetMetadata only
+	Mix bool `json:"mix"`
 	// Impatient: before going on, wait only for the first of the returns the model expects
 	Impatient bool     `json:"impatient"`
 	Steps     []bcStep `json:"steps"`
@@ -189,6 +192,7 @@ func (r *bcRec) waitBound(pred func() bool, d time.Duration) (ok, starved bool) 
 type bcReq struct {
 	corr int32
 	tag  string
+	kind string // API of the request: meta, reassign, produce, fetch, commit
 }
 
 type bcServer struct {
@@ -234,26 +238,50 @@ func (s *bcServer) readLoop(c net.Conn) {
 		if err != nil {
 			return
 		}
-		tag := "?"
-		if _, isProduce := req.body.(*ProduceRequest); isProduce {
+		tag, kind := "?", "?"
+		if p, isProduce := req.body.(*ProduceRequest); isProduce && p.RequiredAcks == NoResponse {
 			// a request without response (acks = 0): nothing to answer, not part of the in-flight count
 			atomic.AddInt64(&s.noresp, 1)
 			continue
 		}
 		switch m := req.body.(type) {
 		case *MetadataRequest:
+			kind = "meta"
 			if len(m.Topics) == 1 {
 				tag = m.Topics[0]
 			}
 		case *ListPartitionReassignmentsRequest:
+			kind = "reassign"
+			if len(m.blocks) == 1 {
+				for k := range m.blocks {
+					tag = k
+				}
+			}
+		case *ProduceRequest:
+			// any RequiredAcks other than 0 is answered (a broker answers acks > 1 with INVALID_REQUIRED_ACKS)
+			kind = "produce"
+			if len(m.records) == 1 {
+				for k := range m.records {
+					tag = k
+				}
+			}
+		case *FetchRequest:
+			kind = "fetch"
+			if len(m.blocks) == 1 {
+				for k := range m.blocks {
+					tag = k
+				}
+			}
+		case *OffsetCommitRequest:
+			kind = "commit"
 			if len(m.blocks) == 1 {
 				for k := range m.blocks {
 					tag = k
 				}
 			}
 		}
-		s.rec.ev(bcEvent{Ev: "srv_recv", Tag: tag, Corr: int(req.correlationID)}, func() {
-			s.unans = append(s.unans, bcReq{req.correlationID, tag})
+		s.rec.ev(bcEvent{Ev: "srv_recv", Tag: tag, Corr: int(req.correlationID), Kind: kind}, func() {
+			s.unans = append(s.unans, bcReq{req.correlationID, tag, kind})
 			s.nrecv++
 		})
 	}
@@ -293,7 +321,30 @@ func bcReassignBody(name string) []byte {
 	return b
 }
 
-func (s *bcServer) body(name string) []byte {
+// bcTopicPartBody is a version 0 response body of the shape topics[name, partitions[0, tail]]
+// (ProduceResponse: error + offset; FetchResponse: error + high watermark + empty message set;
+// OffsetCommitResponse: error)
+func bcTopicPartBody(name string, tail []byte) []byte {
+	b := make([]byte, 0, 32+len(name))
+	b = binary.BigEndian.AppendUint32(b, 1) // topics
+	b = binary.BigEndian.AppendUint16(b, uint16(len(name)))
+	b = append(b, name...)
+	b = binary.BigEndian.AppendUint32(b, 1) // partitions
+	b = binary.BigEndian.AppendUint32(b, 0) // partition 0
+	return append(b, tail...)
+}
+
+func (s *bcServer) body(kind, name string) []byte {
+	switch kind {
+	case "reassign":
+		return bcReassignBody(name)
+	case "produce":
+		return bcTopicPartBody(name, make([]byte, 2+8))
+	case "fetch":
+		return bcTopicPartBody(name, make([]byte, 2+8+4))
+	case "commit":
+		return bcTopicPartBody(name, make([]byte, 2))
+	}
 	if s.hv >= 1 {
 		return bcReassignBody(name)
 	}
@@ -360,20 +411,20 @@ func (s *bcServer) answer(kind string) bool {
 		switch kind {
 		case "ok", "ooo":
 			e.Corr, e.Res, e.N = int(r.corr), r.tag, 1
-			out = s.frame(r.corr, s.body(r.tag))
+			out = s.frame(r.corr, s.body(r.kind, r.tag))
 		case "wrongid":
 			e.Corr, e.Res, e.N = int(r.corr)+100, r.tag, 1
-			out = s.frame(r.corr+100, s.body(r.tag))
+			out = s.frame(r.corr+100, s.body(r.kind, r.tag))
 		case "nested":
 			// a frame with a wrong correlation id whose body is itself a well-formed frame for
 			// the next request: a receiver that merely skips the mismatched header would
 			// deliver the inner frame to the next caller
 			e.Corr, e.Res, e.N = int(r.corr)+100, "N."+r.tag, 1
-			out = s.frame(r.corr+100, s.frame(r.corr+1, s.body("N."+r.tag)))
+			out = s.frame(r.corr+100, s.frame(r.corr+1, s.body(r.kind, "N."+r.tag)))
 		case "bodystall":
 			// intact header (valid length, matching id), fewer body bytes than announced; the
 			// connection stays open and later requests are answered once the client has given up
-			full := s.frame(r.corr, s.body(r.tag))
+			full := s.frame(r.corr, s.body(r.kind, r.tag))
 			hl := 8 + s.hv
 			out = full[:hl+(len(full)-hl)/2]
 			e.Corr = int(r.corr)
@@ -394,7 +445,7 @@ func (s *bcServer) answer(kind string) bool {
 				default:
 					tags = []byte{0x01, 0x00, 0x05, 0x00, 0x00, 0x00, 0x29, 0x08}
 				}
-				body := s.body(r.tag)
+				body := s.body(r.kind, r.tag)
 				out = make([]byte, 0, 8+len(tags)+len(body))
 				out = binary.BigEndian.AppendUint32(out, uint32(4+len(tags)+len(body)))
 				out = binary.BigEndian.AppendUint32(out, uint32(r.corr))
@@ -508,6 +559,80 @@ func bcErrStr(err error) string {
 	return s
 }
 
+// APIs that expect a response, used in rotation by the calls of a Mix case (all with response header v0)
+var bcAPIs = []string{"meta", "produce1", "fetch", "produce2", "commit", "produce-1", "produce3"}
+
+// bcDoCall issues one request of the given API carrying tag as its only topic and returns the topic
+// echoed in the response ("?nil": neither a response nor an error came back)
+func bcDoCall(b *Broker, api, tag string) (string, error) {
+	one := func(n int, first func() string) string {
+		if n != 1 {
+			return "?malformed"
+		}
+		return first()
+	}
+	switch {
+	case api == "reassign":
+		req := &ListPartitionReassignmentsRequest{TimeoutMs: 1000}
+		req.AddBlock(tag, []int32{0})
+		resp, err := b.ListPartitionReassignments(req)
+		if err != nil || resp == nil {
+			return "?nil", err
+		}
+		return one(len(resp.TopicStatus), func() string {
+			for k := range resp.TopicStatus {
+				return k
+			}
+			return ""
+		}), nil
+	case strings.HasPrefix(api, "produce"):
+		acks, _ := strconv.Atoi(strings.TrimPrefix(api, "produce"))
+		req := &ProduceRequest{RequiredAcks: RequiredAcks(acks), Timeout: 1000}
+		req.AddMessage(tag, 0, &Message{Value: []byte("x")})
+		resp, err := b.Produce(req)
+		if err != nil || resp == nil {
+			return "?nil", err
+		}
+		return one(len(resp.Blocks), func() string {
+			for k := range resp.Blocks {
+				return k
+			}
+			return ""
+		}), nil
+	case api == "fetch":
+		req := &FetchRequest{MaxWaitTime: 100, MinBytes: 1}
+		req.AddBlock(tag, 0, 0, 1024)
+		resp, err := b.Fetch(req)
+		if err != nil || resp == nil {
+			return "?nil", err
+		}
+		return one(len(resp.Blocks), func() string {
+			for k := range resp.Blocks {
+				return k
+			}
+			return ""
+		}), nil
+	case api == "commit":
+		req := &OffsetCommitRequest{ConsumerGroup: "g"}
+		req.AddBlock(tag, 0, 1, 0, "")
+		resp, err := b.CommitOffset(req)
+		if err != nil || resp == nil {
+			return "?nil", err
+		}
+		return one(len(resp.Errors), func() string {
+			for k := range resp.Errors {
+				return k
+			}
+			return ""
+		}), nil
+	}
+	resp, err := b.GetMetadata(&MetadataRequest{Topics: []string{tag}})
+	if err != nil || resp == nil {
+		return "?nil", err
+	}
+	return one(len(resp.Topics), func() string { return resp.Topics[0].Name }), nil
+}
+
 // bcRunCase replays one case and returns the recorded events.
 func bcRunCase(c *bcCase, hang time.Duration, st *bcStats) ([]bcEvent, error) {
 	rec := &bcRec{wake: make(chan struct{}, 1), t0: time.Now()}
@@ -573,6 +698,7 @@ func bcRunCase(c *bcCase, hang time.Duration, st *bcStats) ([]bcEvent, error) {
 	closeStarted, closeReturned := false, false
 
 	srv.returned = func(tag string) bool { _, waiting := outstanding[tag]; return !waiting }
+	ncalls := 0
 	startCall := func(want int) {
 		rec.mu.Lock()
 		id := want
@@ -589,6 +715,13 @@ func bcRunCase(c *bcCase, hang time.Duration, st *bcStats) ([]bcEvent, error) {
 		callNo[id]++
 		tag := fmt.Sprintf("c%d.%d", id, callNo[id])
 		outstanding[tag] = id
+		api := "meta"
+		if c.Hv >= 1 {
+			api = "reassign"
+		} else if c.Mix {
+			api = bcAPIs[(c.ID+ncalls)%len(bcAPIs)]
+		}
+		ncalls++
 		rec.mu.Unlock()
 		atomic.AddInt64(&st.calls, 1)
 		go func() {
@@ -608,26 +741,8 @@ func bcRunCase(c *bcCase, hang time.Duration, st *bcStats) ([]bcEvent, error) {
 					}
 				})
 			}()
-			rec.ev(bcEvent{Ev: "call_start", C: id, Tag: tag}, nil)
-			var err error
-			got := "?malformed"
-			if c.Hv >= 1 {
-				req := &ListPartitionReassignmentsRequest{TimeoutMs: 1000}
-				req.AddBlock(tag, []int32{0})
-				var resp *ListPartitionReassignmentsResponse
-				resp, err = b.ListPartitionReassignments(req)
-				if err == nil && resp != nil && len(resp.TopicStatus) == 1 {
-					for k := range resp.TopicStatus {
-						got = k
-					}
-				}
-			} else {
-				var resp *MetadataResponse
-				resp, err = b.GetMetadata(&MetadataRequest{Topics: []string{tag}})
-				if err == nil && resp != nil && len(resp.Topics) == 1 {
-					got = resp.Topics[0].Name
-				}
-			}
+			rec.ev(bcEvent{Ev: "call_start", C: id, Tag: tag, Kind: api}, nil)
+			got, err := bcDoCall(b, api, tag)
 			if err != nil {
 				errs = bcErrStr(err)
 				atomic.AddInt64(&st.errCalls, 1)
